@@ -484,39 +484,47 @@ Section Scanner.
         end
     end.
 
+  (* the first part of one iteration of Scan's loop: "see if we can get a token with what we
+     already have" -- inl = advance out of range (setErr(ErrAdvanceTooFar); cannot happen with
+     this split function), inr (scanner after s.advance, token) *)
+  Definition scan_try (sc : scanner) : unit + (scanner * option bytes) :=
+    if (0 <? length (s_data sc)) || negb (is_none (s_err sc)) then
+      let '(adv, tok) := split (s_data sc) (negb (is_none (s_err sc))) in
+      if length (s_data sc) <? adv then inl tt
+      else inr (mkScan (s_start sc + adv) (skipn adv (s_data sc)) (s_buflen sc) (s_err sc), tok)
+    else inr (sc, None).
+
+  (* "must read more data": shift the data to the start of the buffer if that helps, double the
+     buffer if it is full -- inl = scanner with room to read into; inr = ErrTooLong *)
+  Definition scan_grow (sc1 : scanner) : scanner + scanner :=
+    let en := s_start sc1 + length (s_data sc1) in
+    let sc2 := if (0 <? s_start sc1) && ((en =? s_buflen sc1) || (s_buflen sc1 / 2 <? s_start sc1))
+               then mkScan 0 (s_data sc1) (s_buflen sc1) None else sc1 in
+    let en2 := s_start sc2 + length (s_data sc2) in
+    if en2 =? s_buflen sc2 then
+      if MaxScanTokenSize <=? s_buflen sc2 then
+        inr (mkScan (s_start sc2) (s_data sc2) (s_buflen sc2) (Some IoTooLong))
+      else
+        let ns := if s_buflen sc2 =? 0 then 4096 else Nat.min (s_buflen sc2 * 2) MaxScanTokenSize in
+        inl (mkScan 0 (s_data sc2) ns None)
+    else inl sc2.
+
   (* Scan(): Some token = true; None = false *)
   Fixpoint scan (fuel : nat) (sc : scanner) (x : St) : outcome (option bytes * (scanner * St)) :=
     match fuel with
     | O => OutOfFuel
     | S k =>
-        let try :=
-          if (0 <? length (s_data sc)) || negb (is_none (s_err sc)) then
-            let '(adv, tok) := split (s_data sc) (negb (is_none (s_err sc))) in
-            if length (s_data sc) <? adv then inl (Panic 4 : outcome (option bytes * (scanner * St)))
-            else inr (mkScan (s_start sc + adv) (skipn adv (s_data sc)) (s_buflen sc) (s_err sc), tok)
-          else inr (sc, None) in
-        match try with
-        | inl o => o
+        match scan_try sc with
+        | inl _ => Panic 4
         | inr (sc1, Some t) => Ok (Some t, (sc1, x))
         | inr (sc1, None) =>
             match s_err sc1 with
             | Some _ => Ok (None, (mkScan 0 [] (s_buflen sc1) (s_err sc1), x))
             | None =>
-                let en := s_start sc1 + length (s_data sc1) in
-                (* shift *)
-                let sc2 := if (0 <? s_start sc1) && ((en =? s_buflen sc1) || (s_buflen sc1 / 2 <? s_start sc1))
-                           then mkScan 0 (s_data sc1) (s_buflen sc1) None else sc1 in
-                let en2 := s_start sc2 + length (s_data sc2) in
-                if en2 =? s_buflen sc2 then
-                  if MaxScanTokenSize <=? s_buflen sc2 then
-                    Ok (None, (mkScan (s_start sc2) (s_data sc2) (s_buflen sc2) (Some IoTooLong), x))
-                  else
-                    let ns := if s_buflen sc2 =? 0 then 4096 else Nat.min (s_buflen sc2 * 2) MaxScanTokenSize in
-                    let '(sc3, x') := scan_read 101 (mkScan 0 (s_data sc2) ns None) x in
-                    scan k sc3 x'
-                else
-                  let '(sc3, x') := scan_read 101 sc2 x in
-                  scan k sc3 x'
+                match scan_grow sc1 with
+                | inr sct => Ok (None, (sct, x))
+                | inl sc2 => let '(sc3, x') := scan_read 101 sc2 x in scan k sc3 x'
+                end
             end
         end
     end.
@@ -525,14 +533,15 @@ Section Scanner.
   Definition scan_err (sc : scanner) : option ioerr :=
     match s_err sc with Some IoEOF => None | e => e end.
 
-  (* all tokens until Scan returns false, then Err() *)
-  Fixpoint scan_all (fuel : nat) (sc : scanner) (x : St) : outcome (list bytes * option ioerr) :=
+  (* all tokens until Scan returns false, then Err().  gas: fuel handed to every Scan; fuel:
+     bound on the number of tokens. *)
+  Fixpoint scan_all (gas fuel : nat) (sc : scanner) (x : St) : outcome (list bytes * option ioerr) :=
     match fuel with
     | O => OutOfFuel
     | S k =>
-        match scan (S k) sc x with
+        match scan gas sc x with
         | Ok (Some t, (sc', x')) =>
-            match scan_all k sc' x' with
+            match scan_all gas k sc' x' with
             | Ok (ts, e) => Ok (t :: ts, e)
             | o => o
             end
@@ -663,7 +672,7 @@ Definition check_case (c : ccase) : bool :=
   | CScan delim esc incl eofd buflen src toks e =>
       outcome_is toks_res_eqb
         (scan_all source io_read (byte_index_with_esc delim esc) (length delim) incl eofd
-                  (src_fuel src) (mkScan 0 [] buflen None) src) (toks, e)
+                  (src_fuel src) (src_fuel src) (mkScan 0 [] buflen None) src) (toks, e)
   | CDecode table src caps obs =>
       outcome_is (list_eqb rres_eqb)
         (reads (dec_read source io_read (table_cp table) 4096 (src_fuel src)) (dec_init, src) caps) obs
@@ -686,7 +695,7 @@ Definition check_case (c : ccase) : bool :=
           is_none probe
           && outcome_is toks_res_eqb
                (scan_all _ r2 (byte_index_with_esc delim esc) (length delim) true false
-                         F (mkScan 0 [] 128 None) (brr_init, (brr_init, (b, src')))) (toks, e)
+                         F F (mkScan 0 [] 128 None) (brr_init, (brr_init, (b, src')))) (toks, e)
       | _ => false
       end
   end.
@@ -763,9 +772,59 @@ Definition a_strip_bom (a : astream) : (ioerr + astream) :=
          if (r =? 65279)%N then inr (skipn size data, t) else inr (data, t)
   end.
 
+(* bufio.Scanner with the split function of NewScannerByDelim3: the tokens of a stream.  A token
+   needs its delimiter within the first MaxScanTokenSize bytes of what is left (else
+   bufio.ErrTooLong).  HAZARD: exactly MaxScanTokenSize bytes without delimiter are left -- the
+   scanner answers ErrTooLong or treats them as the end of the input depending on whether the
+   error arrived together with the last bytes (known finding F23; reachable through omniparser's
+   EDI stack because bufio.Reader.Read and BytesReplacingReader pass data and error on together
+   for large reads). *)
+Section AScan.
+  Variable find : bytes -> option nat.
+  Variable dlen : nat.
+  Variable incl eof_as_delim : bool.
+
+  Definition scan_terr (t : tail) : option ioerr :=
+    match tail_err t with IoEOF => None | e => Some e end.
+
+  Fixpoint a_scan_all (fuel : nat) (data : bytes) (t : tail) : outcome (list bytes * option ioerr) :=
+    match fuel with
+    | O => OutOfFuel
+    | S k =>
+        match find (firstn MaxScanTokenSize data) with
+        | Some i =>
+            match a_scan_all k (skipn (i + dlen) data) t with
+            | Ok (ts, e) => Ok (firstn (i + (if incl then dlen else 0)) data :: ts, e)
+            | o => o
+            end
+        | None =>
+            if length data =? MaxScanTokenSize then Panic HAZARD
+            else if MaxScanTokenSize <? length data then Ok ([], Some IoTooLong)
+            else if is_nil data || negb eof_as_delim then Ok ([], scan_terr t)
+            else match a_scan_all k [] t with
+                 | Ok (ts, e) => Ok (data :: ts, e)
+                 | o => o
+                 end
+        end
+    end.
+End AScan.
+
 (* BytesReplacingReader with a one-byte search token *)
 Definition a_replace1 (s : byte) (repl : bytes) (data : bytes) : bytes :=
   flat_map (fun c => if Byte.eqb c s then repl else [c]) data.
+
+(* BytesReplacingReader in general: every leftmost, non-overlapping occurrence of search replaced,
+   the replacement itself not rescanned (bytes.Replace).  skip = bytes of a match still to drop. *)
+Fixpoint a_replace (search repl : bytes) (skip : nat) (l : bytes) : bytes :=
+  match l with
+  | [] => []
+  | c :: r =>
+      match skip with
+      | S k => a_replace search repl k r
+      | O => if prefix_eqb search l then repl ++ a_replace search repl (length search - 1) r
+             else c :: a_replace search repl 0 r
+      end
+  end.
 
 (* the charmap decoder *)
 Definition a_decode (cp : byte -> bytes) (data : bytes) : bytes := flat_map cp data.
